@@ -461,6 +461,18 @@ func (r *PropResult) Report() int {
 		}
 		fmt.Printf("VIOLATION property=%s replay=%s%s\n", prop, path, suffix)
 	}
+	// bounded stand-ins for functions outside the engine's reach (reported separately, never as obligations)
+	bounded, boundedFailed := runBounded(prop)
+	for _, bf := range boundedFailed {
+		path := writeBoundedReplay(prop, bf)
+		suffix := ""
+		if bf.Status != "FAILED" {
+			suffix = " no-failing-input-found"
+		}
+		fmt.Printf("  failed bounded check %s (%s) for %s\n", bf.Name, bf.Status, bf.For)
+		fmt.Printf("VIOLATION property=%s replay=%s%s\n", prop, path, suffix)
+		nViol++
+	}
 	// evidence
 	var fl []string
 	for f := range funcs {
@@ -511,6 +523,7 @@ func (r *PropResult) Report() int {
 		"obligations_generated":  nOb,
 		"known_findings":         nKnown,
 		"known_findings_replayed": knownReplay,
+		"bounded_checks":         bounded,
 		"explanation":            "obligations counts the proof obligations this claim rests on; obligations that are refuted on the current tree and recorded in KNOWN_FINDINGS.jsonl (known_findings) are generated and re-posed on every run but are not part of the proved set: the property is NOT proved for the clause they belong to",
 		"violations":             nViol,
 		"covers_checked":         nCover,
